@@ -1,6 +1,6 @@
 (** Property C18 — the theorems the check counts as obligations.  Nothing but
     statements closed by [exact] and [Print Assumptions]. *)
-From HS Require Import Base.Prelude Base.PyLib C18.Model C18.Causal C18.CRDT C18.VectorIff Gen.ClocksGen C18.GenTie C18.CodeSim.
+From HS Require Import Base.Prelude Base.PyLib C18.Model C18.Causal C18.CRDT C18.VectorIff Gen.ClocksGen C18.GenTie C18.CodeSim C18.StoreModel C18.Store.
 Local Open Scope Z_scope.
 
 (** a -> b  ==>  Lamport(a) < Lamport(b), every well-formed history. *)
@@ -129,3 +129,25 @@ Theorem c18_code_lww_refines : forall r v t a b,
   /\ lww_abs (fst (LWWRegister_merge a b)) = lww_merge (lww_abs a) (lww_abs b).
 Proof. intros r v t a b. exact (conj (tie_lww_set r v t) (tie_lww_merge a b)). Qed.
 Print Assumptions c18_code_lww_refines.
+
+(** CRDTStore, counter keys (happysimulator/components/crdt/crdt_store.py: writes
+    through get_or_create, gossip through _serialize_state / _merge_remote_state).
+    Every replica object a store holds is credited to the store itself; a store
+    that has pulled every node's state reports increments minus decrements, for
+    every schedule of writes, sends and (delayed, duplicated, reordered) receives;
+    with the new-key branch the code had before /repo c92c1df the value clause is
+    false. *)
+Theorem c18_store_replica_identity : forall ops s key r,
+  sstores (st_run true ops) s key = Some r -> s_owner r = s.
+Proof. exact store_replica_identity. Qed.
+Print Assumptions c18_store_replica_identity.
+
+Theorem c18_store_counter_value : forall ops nodes r key,
+  st_value nodes (st_run true (ops ++ pull_all r nodes)) key r =
+    zsum (map (fun k => sincs key k ops) nodes) - zsum (map (fun k => sdecs key k ops) nodes).
+Proof. exact store_counter_value. Qed.
+Print Assumptions c18_store_counter_value.
+
+Theorem c18_store_unfixed_learn_refuted : ~ store_value_statement false.
+Proof. exact store_unfixed_learn_refuted. Qed.
+Print Assumptions c18_store_unfixed_learn_refuted.
